@@ -622,7 +622,12 @@ fn gen_field(s: &mut Src, depth: usize) -> Field {
         }
         6 => {
             let h = s.below(3);
-            let tmpl = gen_scalar(s);
+            // the optional tail is a scalar in the library's own messages; the model also allows any shape with at least one
+            // byte on the wire (a record with a size-dependent block, a trame, a nested record ...)
+            let mut tmpl = if width != 1 && s.chance(96) { gen_shape(s, depth.min(1)) } else { gen_scalar(s) };
+            if min_len(&tmpl) == 0 {
+                tmpl = gen_scalar(s);
+            }
             let tail = if s.bool() { Some(revalue(&tmpl, s)) } else { None };
             Field::SizedOptional { width, be, head: (0..h).map(|_| gen_scalar(s)).collect(), tail, tail_template: tmpl }
         }
